@@ -207,6 +207,17 @@ Proof.
     + intros Hx. discriminate Hx.
 Qed.
 
+(* the well-formedness predicate is inhabited: NewHeader's headers, with any data size *)
+Lemma header_wf_new_header crc n : n < 2 ^ 32 ->
+  header_wf (mk_header (h_size (new_header c_currentProtocolVersion crc)) c_currentProtocolVersion
+                       c_ProfileVersion n fit_dtype 0).
+Proof.
+  intros Hn. unfold header_wf. cbn [h_size h_proto h_profile h_dsize h_dtype h_crc new_header].
+  repeat split; try reflexivity; try assumption.
+  - destruct crc; [left|right]; reflexivity.
+  - intros _. left. reflexivity.
+Qed.
+
 (* a header carrying its own checksum leaves the register at zero *)
 Lemma hdr_crc_zero h : header_wf h -> h_size h = c_headerSizeCRC -> h_crc h <> 0 ->
   crc_write crc_new (hdr_bytes h) = 0.
@@ -264,3 +275,262 @@ Proof.
     { rewrite <- Hdty, <- (Hn E). destruct h; reflexivity. }
     rewrite Hh. reflexivity.
 Qed.
+
+(* ------------------------------------------------------------ 3. the trailer *)
+
+Lemma check_crc_run : forall fuel rd crc f c1 c2 rest,
+  rd_data rd = [c1; c2] ++ rest ->
+  (length (rd_data rd) + length (rd_sched rd) < fuel)%nat ->
+  exists rd',
+    check_crc fuel rd crc f =
+      Done (if crc_sum16 (crc_write crc [c1; c2]) =? 0 then None else Some EFileCRC,
+            set_crc f (le16 [c1; c2]), rd') /\
+    rd_pos rd' = (rd_pos rd + 2)%nat /\ rd_data rd' = rest /\
+    rd_term rd' = rd_term rd /\ rd_ewd rd' = rd_ewd rd /\
+    (length (rd_data rd') + length (rd_sched rd') <= length (rd_data rd) + length (rd_sched rd))%nat.
+Proof.
+  intros fuel rd crc f c1 c2 rest Hd Hf.
+  destruct (io_read_full_exact 2 fuel rd [c1; c2] rest Hd eq_refl Hf) as (rd' & R & D & T & E & P & M).
+  exists rd'. split; [|repeat split; assumption].
+  unfold check_crc. rewrite R.
+  destruct (crc_sum16 (crc_write crc [c1; c2]) =? 0); reflexivity.
+Qed.
+
+Theorem check_crc_ok : forall fuel rd crc f c1 c2 rest,
+  rd_data rd = [c1; c2] ++ rest ->
+  (length (rd_data rd) + length (rd_sched rd) < fuel)%nat ->
+  crc_sum16 (crc_write crc [c1; c2]) = 0 ->
+  exists rd', check_crc fuel rd crc f = Done (None, set_crc f (le16 [c1; c2]), rd') /\
+    rd_pos rd' = (rd_pos rd + 2)%nat /\ rd_data rd' = rest.
+Proof.
+  intros fuel rd crc f c1 c2 rest Hd Hf Hz.
+  destruct (check_crc_run fuel rd crc f c1 c2 rest Hd Hf) as (rd' & R & P & D & _).
+  exists rd'. rewrite Hz in R. repeat split; assumption.
+Qed.
+
+Theorem check_crc_bad : forall fuel rd crc f c1 c2 rest,
+  rd_data rd = [c1; c2] ++ rest ->
+  (length (rd_data rd) + length (rd_sched rd) < fuel)%nat ->
+  crc_sum16 (crc_write crc [c1; c2]) <> 0 ->
+  exists rd', check_crc fuel rd crc f = Done (Some EFileCRC, set_crc f (le16 [c1; c2]), rd') /\
+    rd_pos rd' = (rd_pos rd + 2)%nat /\ rd_data rd' = rest.
+Proof.
+  intros fuel rd crc f c1 c2 rest Hd Hf Hz.
+  destruct (check_crc_run fuel rd crc f c1 c2 rest Hd Hf) as (rd' & R & P & D & _).
+  exists rd'. apply N.eqb_neq in Hz. rewrite Hz in R. repeat split; assumption.
+Qed.
+
+(* ------------------------------------------------------------ the buffered phase never grows the reader *)
+
+Lemma rd_read_msr r k : (msr (snd (rd_read r k)) <= msr r)%nat.
+Proof.
+  unfold rd_read. destruct (rd_data r) as [|b0 d0] eqn:Ed; cbn [snd]; [lia|].
+  unfold msr. cbn [rd_data rd_sched]. rewrite Ed, skipn_length.
+  pose proof (tl_length_le (rd_sched r)). lia.
+Qed.
+
+Lemma fill_msr c u c' : fill c = COk u c' -> (msr (c_rd c') <= msr (c_rd c))%nat.
+Proof.
+  unfold fill. destruct (c_fuel c) as [|f]; [discriminate|].
+  destruct (Nat.eqb (c_n c) (c_limit c)); [discriminate|].
+  pose proof (rd_read_msr (c_rd c) (Nat.min BUFSZ (c_limit c - c_n c))) as H.
+  destruct (rd_read (c_rd c) (Nat.min BUFSZ (c_limit c - c_n c))) as [[bs e] rd'].
+  cbn [snd] in H.
+  destruct bs as [|b bs]; [destruct e as [t|]|]; intros Heq; inversion Heq; subst; cbn [c_rd]; assumption.
+Qed.
+
+Lemma c_byte_msr : forall iters c b c', c_byte iters c = COk b c' -> (msr (c_rd c') <= msr (c_rd c))%nat.
+Proof.
+  induction iters as [|it IH]; intros c b c'; cbn [c_byte]; destruct (c_buf c) as [|b0 r0].
+  - discriminate.
+  - intros Heq; inversion Heq; subst; cbn [c_rd]; lia.
+  - destruct (fill c) as [u c2|e c2|] eqn:Ef; try discriminate.
+    intros Heq. apply IH in Heq. apply fill_msr in Ef. lia.
+  - intros Heq; inversion Heq; subst; cbn [c_rd]; lia.
+Qed.
+
+Lemma c_take_msr : forall iters k acc c l c', c_take iters k acc c = COk l c' -> (msr (c_rd c') <= msr (c_rd c))%nat.
+Proof.
+  induction iters as [|it IH]; intros k acc c l c'; cbn [c_take];
+    destruct (Nat.eqb (k - Nat.min k (length (c_buf c))) 0).
+  - intros Heq; inversion Heq; subst; cbn [c_rd]; lia.
+  - discriminate.
+  - intros Heq; inversion Heq; subst; cbn [c_rd]; lia.
+  - destruct (fill _) as [u c2|e c2|] eqn:Ef; try discriminate.
+    intros Heq. apply IH in Heq. apply fill_msr in Ef. cbn [c_rd] in Ef. lia.
+Qed.
+
+Lemma run_c_measure {S E A} : forall (p : prog S E A) c s x c' s',
+  run_c p c s = ROk x c' s' ->
+  (length (rd_data (c_rd c')) + length (rd_sched (c_rd c')) <= length (rd_data (c_rd c)) + length (rd_sched (c_rd c)))%nat.
+Proof.
+  intros p c s x c' s'. change (run_c p c s = ROk x c' s' -> (msr (c_rd c') <= msr (c_rd c))%nat).
+  revert c s x c' s'.
+  induction p as [y|e|w|k IH|n k IH|k IH|k IH|s0 k IH]; intros c s x c' s'; cbn [run_c]; try discriminate.
+  - intros Heq; inversion Heq; subst; lia.
+  - destruct (c_byte _ c) as [b c2|e c2|] eqn:Eb; try discriminate.
+    intros Heq. apply IH in Heq. apply c_byte_msr in Eb. lia.
+  - destruct (c_take _ n [] c) as [l c2|e c2|] eqn:Eb; try discriminate.
+    intros Heq. apply IH in Heq. apply c_take_msr in Eb. lia.
+  - apply IH.
+  - apply IH.
+  - apply IH.
+Qed.
+
+(* ------------------------------------------------------------ 4. the frame *)
+
+Definition file_crc (h : header) (data : list N) : N := checksum (hdr_bytes h ++ data).
+Definition frame_bytes (h : header) (data : list N) : list N :=
+  hdr_bytes h ++ data ++ put_le16 (file_crc h data).
+
+Lemma file_crc_lt h data : header_wf h -> is_bytes data -> file_crc h data < 65536.
+Proof.
+  intros Hwf Hb. unfold file_crc, checksum. apply update_lt; [reflexivity|].
+  apply is_bytes_app; [now apply hdr_bytes_bytes|assumption].
+Qed.
+
+Lemma frame_bytes_length h data : header_wf h ->
+  length (frame_bytes h data) = (N.to_nat (h_size h) + length data + 2)%nat.
+Proof.
+  intros Hwf. unfold frame_bytes. rewrite !app_length, (hdr_bytes_length h Hwf).
+  change (length (put_le16 (file_crc h data))) with 2%nat. lia.
+Qed.
+
+(* the register over header, data and the trailer is zero *)
+Lemma frame_residue h data : header_wf h -> is_bytes data ->
+  crc_sum16 (crc_write (crc_write (crc_write crc_new (hdr_bytes h)) data) (put_le16 (file_crc h data))) = 0.
+Proof.
+  intros Hwf Hb. unfold crc_sum16, crc_write, crc_new.
+  rewrite <- !update_app. rewrite (put_le16_lo_hi _ (file_crc_lt h data Hwf Hb)).
+  rewrite app_assoc. unfold file_crc.
+  apply (residue_zero (hdr_bytes h ++ data)).
+  apply is_bytes_app; [now apply hdr_bytes_bytes|assumption].
+Qed.
+
+Theorem decode_frame : forall o g rd fuel h data extra s1,
+  header_wf h -> is_bytes data -> h_dsize h = N.of_nat (length data) ->
+  rd_data rd = frame_bytes h data ++ extra ->
+  (length (rd_data rd) + length (rd_sched rd) < fuel)%nat ->
+  run_a (data_prog o false (S (length data)))
+        (mk_ast (data ++ put_le16 (file_crc h data) ++ extra) (rd_term rd) 0 (length data))
+        (init_dstate (new_file h) g)
+    = ROk tt (mk_ast (put_le16 (file_crc h data) ++ extra) (rd_term rd) (length data) (length data)) s1 ->
+  exists rd',
+    decode o MFull g rd fuel =
+      TDone (mk_dres None h
+               (Some (finalize_unknown o (with_file s1 (set_crc (ds_file s1) (file_crc h data)) (ds_g s1))))
+               rd' (ds_g s1) (ds_quirks s1)) /\
+    rd_pos rd' = (rd_pos rd + length (frame_bytes h data))%nat /\
+    rd_data rd' = extra.
+Proof.
+  intros o g rd fuel h data extra s1 Hwf Hb Hds Hd Hf Hrun.
+  pose proof (frame_bytes_length h data Hwf) as Hfl.
+  pose proof (hdr_bytes_length h Hwf) as Hhl.
+  pose proof (frame_residue h data Hwf Hb) as Hres.
+  pose proof (file_crc_lt h data Hwf Hb) as Hclt.
+  unfold frame_bytes in Hd. rewrite <- !app_assoc in Hd.
+  destruct (decode_header_ok h fuel rd (data ++ put_le16 (file_crc h data) ++ extra) Hwf Hd Hf)
+    as (rd1 & DH & D1 & T1 & E1 & P1 & M1).
+  assert (Hlim : N.to_nat (h_dsize h) = length data) by (rewrite Hds; apply Nat2N.id).
+  assert (Hf1 : (length (rd_data rd1) + length (rd_sched rd1) < fuel)%nat) by lia.
+  pose proof (Rel_start rd1 (length data) (crc_write crc_new (hdr_bytes h)) fuel Hf1) as HR.
+  pose proof (run_sim _ _ _ (data_prog o false (S (length data))) _ _ (init_dstate (new_file h) g) HR) as Hsim.
+  unfold start_a, start_c in Hsim. rewrite D1, T1 in Hsim. rewrite Hrun in Hsim.
+  unfold decode. rewrite DH. cbv beta iota zeta. rewrite Hlim.
+  remember (run_c (data_prog o false (S (length data)))
+              (mk_cst rd1 [] 0 (length data) (crc_write crc_new (hdr_bytes h)) fuel)
+              (init_dstate (new_file h) g)) as rc eqn:Hrc.
+  destruct rc as [x c' s'|e c' s'|e c' s'|w|]; unfold sim in Hsim; try contradiction.
+  destruct Hsim as (_ & Hs & HR'). subst s'.
+  pose proof (run_c_measure _ _ _ _ _ _ (eq_sym Hrc)) as Hmsr. cbn [c_rd] in Hmsr.
+  destruct HR' as [Hr Ha Hl Ht Hn Hli Hbd Hfu Hp Hc]. cbn [a_rest a_term a_n a_limit] in *.
+  assert (Hbuf : c_buf c' = []) by (apply length_zero_iff_nil; lia).
+  rewrite Hbuf in *. cbn [app length] in *.
+  rewrite <- Hn, <- Hli, Nat.eqb_refl. cbn [negb].
+  rewrite <- Hn, Nat.add_0_r, firstn_app_exact in Hc.
+  rewrite <- Hc in Hres.
+  destruct (check_crc_ok fuel (c_rd c') (c_crc c') (ds_file s1)
+              (file_crc h data mod 256) ((file_crc h data / 256) mod 256) extra
+              (eq_sym Hr) ltac:(lia) Hres) as (rd3 & R3 & P3 & D3).
+  rewrite R3.
+  change [file_crc h data mod 256; (file_crc h data / 256) mod 256] with (put_le16 (file_crc h data)).
+  rewrite (le16_put_le16 _ Hclt).
+  exists rd3. split; [reflexivity|]. split; [|assumption].
+  rewrite P3, Hp, P1, Hfl, Hhl, <- Hn. lia.
+Qed.
+
+Corollary entry_Decode_frame : forall o g rd fuel h data extra s1,
+  header_wf h -> is_bytes data -> h_dsize h = N.of_nat (length data) ->
+  rd_data rd = frame_bytes h data ++ extra ->
+  (length (rd_data rd) + length (rd_sched rd) < fuel)%nat ->
+  run_a (data_prog o false (S (length data)))
+        (mk_ast (data ++ put_le16 (file_crc h data) ++ extra) (rd_term rd) 0 (length data))
+        (init_dstate (new_file h) g)
+    = ROk tt (mk_ast (put_le16 (file_crc h data) ++ extra) (rd_term rd) (length data) (length data)) s1 ->
+  exists rd',
+    entry_Decode o g rd fuel =
+      TDone (mk_dres None h
+               (Some (finalize_unknown o (with_file s1 (set_crc (ds_file s1) (file_crc h data)) (ds_g s1))))
+               rd' (ds_g s1) (ds_quirks s1)) /\
+    rd_pos rd' = (rd_pos rd + length (frame_bytes h data))%nat /\
+    rd_data rd' = extra.
+Proof. unfold entry_Decode. exact decode_frame. Qed.
+
+(* the same with the boolean byte-range test of Model/Bytes.v *)
+Corollary decode_frame_b : forall o g rd fuel h data extra s1,
+  header_wf h -> all_bytes data = true -> h_dsize h = N.of_nat (length data) ->
+  rd_data rd = frame_bytes h data ++ extra ->
+  (length (rd_data rd) + length (rd_sched rd) < fuel)%nat ->
+  run_a (data_prog o false (S (length data)))
+        (mk_ast (data ++ put_le16 (file_crc h data) ++ extra) (rd_term rd) 0 (length data))
+        (init_dstate (new_file h) g)
+    = ROk tt (mk_ast (put_le16 (file_crc h data) ++ extra) (rd_term rd) (length data) (length data)) s1 ->
+  exists rd',
+    decode o MFull g rd fuel =
+      TDone (mk_dres None h
+               (Some (finalize_unknown o (with_file s1 (set_crc (ds_file s1) (file_crc h data)) (ds_g s1))))
+               rd' (ds_g s1) (ds_quirks s1)) /\
+    rd_pos rd' = (rd_pos rd + length (frame_bytes h data))%nat /\
+    rd_data rd' = extra.
+Proof.
+  intros o g rd fuel h data extra s1 Hwf Hb. apply decode_frame; [assumption|now apply all_bytes_is_bytes].
+Qed.
+
+(* the result does not depend on the chunk schedule, the data-with-EOF flag,
+   the start position or the fuel: two readers holding the same bytes with the
+   same terminal condition produce the same header, file, global state and
+   quirks, leave the same bytes unread and consume the same number of bytes *)
+Corollary decode_frame_schedule_independent : forall o g rd rd2 fuel fuel2 h data extra s1,
+  header_wf h -> is_bytes data -> h_dsize h = N.of_nat (length data) ->
+  rd_data rd = frame_bytes h data ++ extra ->
+  rd_data rd2 = rd_data rd -> rd_term rd2 = rd_term rd ->
+  (length (rd_data rd) + length (rd_sched rd) < fuel)%nat ->
+  (length (rd_data rd2) + length (rd_sched rd2) < fuel2)%nat ->
+  run_a (data_prog o false (S (length data)))
+        (mk_ast (data ++ put_le16 (file_crc h data) ++ extra) (rd_term rd) 0 (length data))
+        (init_dstate (new_file h) g)
+    = ROk tt (mk_ast (put_le16 (file_crc h data) ++ extra) (rd_term rd) (length data) (length data)) s1 ->
+  exists r1 r2,
+    decode o MFull g rd fuel = TDone r1 /\ decode o MFull g rd2 fuel2 = TDone r2 /\
+    dr_err r1 = dr_err r2 /\ dr_hdr r1 = dr_hdr r2 /\ dr_file r1 = dr_file r2 /\
+    dr_g r1 = dr_g r2 /\ dr_quirks r1 = dr_quirks r2 /\
+    rd_data (dr_rd r1) = rd_data (dr_rd r2) /\
+    (rd_pos (dr_rd r1) - rd_pos rd = rd_pos (dr_rd r2) - rd_pos rd2)%nat.
+Proof.
+  intros o g rd rd2 fuel fuel2 h data extra s1 Hwf Hb Hds Hd Hd2 Ht2 Hf Hf2 Hrun.
+  destruct (decode_frame o g rd fuel h data extra s1 Hwf Hb Hds Hd Hf Hrun) as (ra & Ra & Pa & Da).
+  rewrite <- Ht2 in Hrun. rewrite <- Hd2 in Hd.
+  destruct (decode_frame o g rd2 fuel2 h data extra s1 Hwf Hb Hds Hd Hf2 Hrun) as (rb & Rb & Pb & Db).
+  eexists. eexists. split; [exact Ra|]. split; [exact Rb|].
+  cbn [dr_err dr_hdr dr_file dr_g dr_quirks dr_rd].
+  repeat split; try reflexivity; [congruence|lia].
+Qed.
+
+Print Assumptions io_read_full_exact.
+Print Assumptions decode_header_ok.
+Print Assumptions check_crc_ok.
+Print Assumptions check_crc_bad.
+Print Assumptions run_c_measure.
+Print Assumptions entry_Decode_frame.
+Print Assumptions decode_frame_schedule_independent.
+Print Assumptions decode_frame.
